@@ -1414,7 +1414,15 @@ class OptionStore:
 
             oldval = self.get_value_object(key)
             if type(oldval) is not type(value):
-                self.set_option(key, value.value)
+                # The option has a different type now: the stored value means
+                # nothing for it. Replace the option as if it were new; options
+                # that yielded to the old one only yield to the same type.
+                for opt in self.options.values():
+                    if opt.parent is oldval:
+                        opt.parent = None
+                        opt.yielding = False
+                del self.options[key]
+                self.add_project_option(key, value)
             elif choices_are_different(oldval, value):
                 # If the choices have changed, use the new value, but attempt
                 # to keep the old options. If they are not valid keep the new
